@@ -204,6 +204,9 @@ SPECS = {
 }
 
 CANARIES = [
+    {"name": "at_sign_guard_removed", "file": ZSER, "old": "                if relative == \"@\" {", "new": "                if relative == \"@@\" {"},
+    {"name": "one_label_too_few_kept", "file": ZSER, "old": "                let labels_to_keep = name.labels.len() - apex.labels.len();", "new": "                let labels_to_keep = name.labels.len() - apex.labels.len() - 1;"},
+    {"name": "apex_written_as_a_dot", "file": ZSER, "old": "                \"@\".to_string()\n            } else {\n                let labels_to_keep", "new": "                \".\".to_string()\n            } else {\n                let labels_to_keep"},
     {"name": "labels_joined_without_dots", "file": TYPES, "old": "            if first {\n                first = false;\n            } else {\n                out.push('.');\n            }", "new": "            if first {\n                first = false;\n            }"},
 ]
 
